@@ -258,4 +258,13 @@ def fusedTrace (c : BufferCopies) (preds : List PredRun) (work out : Nat) : List
     ++ preds.map (fun p => .free (net p.trace).toNat)
     ++ [.alloc (out * c.write), .free (out * c.write), .free out]
 
+/-- What the code does for an *iterator* argument of a fused op (`apply_blockwise_func` returns a generator):
+the function has started — its working set `work` (e.g. the output buffer of `_assemble_index_chunk`) exists —
+and each predecessor is evaluated inside it when the iterator is advanced; its result is consumed at once. -/
+def lazyFusedTrace (c : BufferCopies) (preds : List PredRun) (work out : Nat) : List Ev :=
+  [.alloc work]
+    ++ preds.flatMap (fun p => p.trace ++ [.free (net p.trace).toNat])
+    ++ [.alloc out, .free work]
+    ++ [.alloc (out * c.write), .free (out * c.write), .free out]
+
 end Cubed.Memory
